@@ -23,7 +23,7 @@ import (
 )
 
 type c13Stmt struct {
-	kind string // w r R xf pf e q Q qf p b c rb
+	kind string // w r R xf pf e q Q qf p sp sa sq b c rb
 	tok  int
 }
 
@@ -38,7 +38,7 @@ func (s c13Stmt) token() string {
 func (s c13Stmt) isWrite() bool { return s.kind == "w" || s.kind == "r" || s.kind == "R" }
 func (s c13Stmt) isCtl() bool   { return s.kind == "b" || s.kind == "c" || s.kind == "rb" }
 func (s c13Stmt) fails() bool {
-	return s.kind == "xf" || s.kind == "pf" || s.kind == "qf" || s.kind == "p"
+	return s.kind == "xf" || s.kind == "pf" || s.kind == "qf" || s.kind == "p" || s.kind == "sp" || s.kind == "sa" || s.kind == "sq"
 }
 
 type c13Req struct {
@@ -125,6 +125,32 @@ func c13SQL(s c13Stmt, v int) *command.Statement {
 		default:
 			return &command.Statement{Sql: fmt.Sprintf("INSERT INTO t(tok) VALUES(%d);\nINSERT INTO u(k) VALUES(0); INSERT INTO t(tok) VALUES(999999)", s.tok)}
 		}
+	case "sp":
+		// a RETURNING statement marked as a query which does not even prepare
+		return &command.Statement{ForceQuery: true, Sql: []string{
+			"INSERT INTO nosuch(tok) VALUES(424242) RETURNING tok",
+			"INSERT INTO t(tok) VALUES(424242) RETURNING nosuchcol",
+			"UPDATE t SET tok = 424242 WHERE nosuchcol = 1 RETURNING tok"}[v%3]}
+	case "sa":
+		// a RETURNING write marked as a query with too few parameters, positional or named
+		switch v % 3 {
+		case 0:
+			return &command.Statement{ForceQuery: true, Sql: "INSERT INTO t(tok) VALUES(?) RETURNING tok"}
+		case 1:
+			return &command.Statement{ForceQuery: true, Sql: "INSERT INTO t(id, tok) VALUES(?, ?) RETURNING tok",
+				Parameters: []*command.Parameter{{Value: &command.Parameter_I{I: 424242}}}}
+		default:
+			return &command.Statement{ForceQuery: true, Sql: "INSERT INTO t(id, tok) VALUES(:a, :b) RETURNING tok",
+				Parameters: []*command.Parameter{{Name: "a", Value: &command.Parameter_I{I: 424242}}}}
+		}
+	case "sq":
+		// a read-only statement, marked as a query, with too few parameters (through ExecContext the
+		// driver would bind NULL for the missing ones and succeed)
+		if v%2 == 0 {
+			return &command.Statement{Sql: "SELECT tok FROM t WHERE tok = ? AND id = ?", ForceQuery: true,
+				Parameters: []*command.Parameter{{Value: &command.Parameter_I{I: 1}}}}
+		}
+		return &command.Statement{Sql: "SELECT tok FROM t WHERE tok = :x", ForceQuery: true}
 	case "xf":
 		return &command.Statement{Sql: c13ExecFail[v%len(c13ExecFail)]}
 	case "pf":
@@ -382,6 +408,20 @@ func c13Oracle(rep *vfReport, r c13Req, o c13Obs, caseOps []string) {
 			fail("result-count", fmt.Sprintf("%d results, want %d (one per non-empty statement up to and including the first failure)", len(o.results), want))
 		}
 	}
+	if r.tx && hasCtl {
+		// outside the property's quantifier, but evaluated all the same: explicit BEGIN / COMMIT /
+		// ROLLBACK inside a Transaction request defeats the wrapper (recorded known finding)
+		rep.Count("oracle:tx-request-with-explicit-transaction-control")
+		anyErr := o.err != nil
+		for _, res := range o.results {
+			if c13IsErr(res) {
+				anyErr = true
+			}
+		}
+		if !(c13Eq(o.after, o.before) || c13Eq(o.after, all)) || (anyErr && !c13Eq(o.after, o.before)) || o.openAfter {
+			rep.Fail("explicit-transaction-control-inside-transaction-request", fmt.Sprintf("a Transaction request holding BEGIN/COMMIT/ROLLBACK statements was not all-or-nothing — request `%s` (after ops %v) observed `%s`", r.opLine(), caseOps, c13Canon(r, o)), replay)
+		}
+	}
 	if !r.tx && !r.rb {
 		rep.Count("oracle:plain-request")
 		if len(o.results) != len(ne) {
@@ -451,8 +491,10 @@ func c13GenStmts(r *vfRng, n int, allowCtl bool, nextTok *int) []c13Stmt {
 		case p < 50:
 			*nextTok++
 			s = c13Stmt{kind: []string{"r", "R"}[r.Intn(2)], tok: *nextTok}
-		case p < 56:
+		case p < 53:
 			s = c13Stmt{kind: "xf"}
+		case p < 56:
+			s = c13Stmt{kind: []string{"sp", "sa", "sq"}[r.Intn(3)]}
 		case p < 60:
 			*nextTok++
 			s = c13Stmt{kind: "p", tok: *nextTok}
@@ -560,7 +602,7 @@ func c13RunCase(ops []string, rep *vfReport) []string {
 }
 
 func TestVerifC13(t *testing.T) {
-	rep := vfNewReport("C13", "generated cases: fresh WAL database, 1-3 requests of 1-8 statements (writes, RETURNING with/without ForceQuery, constraint failures incl. a multi-row statement failing on its last row, statements that are not atomic on their own - several commands in one text, INSERT OR FAIL - failing part-way, prepare failures, empty, queries, failing query, BEGIN/COMMIT/ROLLBACK) × Transaction on/off × RollbackOnError on/off × db.Execute / db.Request; a request is non-trivial when it has ≥2 statements one of which fails; distinct by abstract request line")
+	rep := vfNewReport("C13", "generated cases: fresh WAL database, 1-3 requests of 1-8 statements (writes, RETURNING with/without ForceQuery, constraint failures incl. a multi-row statement failing on its last row, statements that are not atomic on their own - several commands in one text, INSERT OR FAIL - failing part-way, statements run through the query helper whose query fails to start (missing table/column, too few positional/named parameters), prepare failures, empty, queries, failing query, BEGIN/COMMIT/ROLLBACK) × Transaction on/off × RollbackOnError on/off × db.Execute / db.Request; a request is non-trivial when it has ≥2 statements one of which fails; distinct by abstract request line")
 	defer rep.Write()
 
 	if ops, ok := vfReplayOps(); ok {
@@ -580,6 +622,11 @@ func TestVerifC13(t *testing.T) {
 		// a transaction holding exactly one statement which is not atomic on its own
 		{"reset", "req exec 1 0 p1"}, {"reset", "req request 1 0 p1"}, {"reset", "req exec 1 1 p1", "req request 1 0 p2", "req exec 0 0 p3,w4"},
 		{"reset", "req exec 1 0 w1,p2,w3"}, {"reset", "req request 0 1 b,w1,p2,c"},
+		// a statement run through the query helper whose query fails to start
+		{"reset", "req exec 1 0 w1,sp,w2"}, {"reset", "req exec 1 0 w1,sa,w2"}, {"reset", "req request 1 0 w1,sa,w2"},
+		{"reset", "req request 1 0 w1,sq,w2"}, {"reset", "req exec 1 0 w1,sq,w2"}, {"reset", "req request 1 0 w1,sp,w2"},
+		{"reset", "req exec 0 1 b,w1,sa,w2,c"}, {"reset", "req request 0 1 b,w1,sq,w2,c"},
+		{"reset", "req exec 1 0 w1,c,w2,xf"}, {"reset", "req request 1 0 w1,c,xf,w2"}, {"reset", "req exec 0 1 w1,p2,w3"},
 	}
 	r := vfNewRng(13)
 	cases := vfScale(350, 30000)
